@@ -357,6 +357,45 @@ def run(chk, prog):
                    'content_with_path_component no longer resolves names through named_content', cw.loc(0))
 
     # ---------------- (d) a saved position is read back, not judged
+    RE = 'C19.zero-components-is-not-the-whole-path'
+    chk.rule(RE, 'Container::content_at_path takes a length of the path to use; Story::pointer_at_path passes len - 1 for a '
+             'path that ends in an index, which is 0 for a position directly in the root ("0", "1"). The test that turns '
+             'the "whole path" sentinel into path.len() must therefore be false for 0: otherwise "k" of the root resolves '
+             'to the k-th child itself instead of (root, k), and every saved position in the root reads back as another one.')
+    cap = prog.fn('Container::content_at_path')
+    if chk.anchor(RE, 'Container::content_at_path', cap):
+        from analysis.guards import resolve_cond as _rc
+        found = []
+        for bb, t in cap.terms():
+            if t['k'] != 'switch':
+                continue
+            c_ = _rc(prog, cap, t['d'], tr)
+            if c_ is None or c_.desc[0] != 'cmp' or 'arg:4' not in c_.desc[2] or not isinstance(c_.desc[3], int):
+                continue
+            # does the side that is taken for the value 0 assign path.len() to the length?
+            op_, k_ = c_.desc[1], c_.desc[3]
+            rel = op_[1:] if op_.startswith('r') else op_
+            a_, b_ = (k_, 0) if op_.startswith('r') else (0, k_)
+            truth0 = {'Eq': a_ == b_, 'Ne': a_ != b_, 'Lt': a_ < b_, 'Le': a_ <= b_, 'Gt': a_ > b_, 'Ge': a_ >= b_}[rel]
+            if not c_.positive:
+                truth0 = not truth0
+            tgt = [tb for v, tb in t['ts'] if c_.truth_of_value(v) == truth0]
+            if len(t['ts']) == 1 and c_.truth_of_value(1 - t['ts'][0][0]) == truth0:
+                tgt.append(t['else'])
+            g_ = cfg(cap)
+            assigns = [b2 for b2, t2 in cap.calls() if callee_short(t2) == 'Path::len']
+            # the assignment `partial_path_length = path.len()` sits in a block reached only from one side of the test
+            other = [x for x in ([tb for _, tb in t['ts']] + [t['else']]) if x not in tgt]
+            only_here = [a for a in assigns if a in g_.reachable(tgt, avoid=[bb]) and a not in g_.reachable(other, avoid=[bb])]
+            found.append((bb, bool(only_here)))
+        if chk.anchor(RE, 'test of the length parameter against a constant in content_at_path', found):
+            bad = [bb for bb, taken in found if taken]
+            chk.decide(RE, chk.key(RE, 'Container::content_at_path'), not bad,
+                       'a length of 0 is kept as 0',
+                       'content_at_path replaces a length of 0 by the whole length of the path: pointer_at_path("k") for a '
+                       'position directly in the root resolves to the child itself, not to (root, k)',
+                       cap.loc(bad[0]) if bad else cap.loc(0))
+
     RD = 'C19.saved-position-read-back-total'
     chk.rule(RD, 'In Thread::from_json, once the saved container path has been resolved (Container::content_at_path) the '
              'reconstruction of the frame\'s pointer cannot fail by a decision of the reader: the only error exits after '
